@@ -127,13 +127,24 @@ pub fn histories(sink: &mut Sink, rng: &mut Rng, thorough: bool, work: &Path) {
       list_txt.push_str(&format!("{} {}\n", if e.status == 2 { -(id as i64) } else { id as i64 }, p.display()));
       mk.push(e);
     }
+    // 1 list out of 4: an identifier given TWICE (right after the first occurrence or further down the list,
+    // same or opposite sign = same or different status): `make` must refuse it and create nothing
+    if !fill && !mk.is_empty() && rng.chance(1, 4) {
+      let id = if rng.chance(1, 2) { mk[0].id } else { mk[rng.below(mk.len() as u64) as usize].id };
+      let e = random_entry(rng, id);
+      let p = dir.join(format!("mdup_{}.fits", id));
+      e.write_fits(&p, false);
+      list_txt.push_str(&format!("{} {}\n", if e.status == 2 { -(id as i64) } else { id as i64 }, p.display()));
+      mk.push(e);
+      sink.count("make:duplicate-identifier");
+    }
     let lp = dir.join("list.txt");
     fs::write(&lp, &list_txt).unwrap();
     let r = run("mocset", &["make", "-n", &n128.to_string(), "-l", lp.to_str().unwrap(), file.to_str().unwrap()], None, &[]);
     hist.push(format!("mk:{}", if mk.is_empty() { "_".to_string() } else { mk.iter().map(|e| e.txt()).collect::<Vec<_>>().join(";") }));
     known.extend(mk.iter().cloned());
     let mut emit = |sink: &mut Sink, hist: &Vec<String>, ok: bool, file: &Path| {
-      let ans = format!("{}#{}", if ok { "ok" } else { "err" }, list_rows(file));
+      let ans = if !ok && !file.exists() { "err#nofile".to_string() } else { format!("{}#{}", if ok { "ok" } else { "err" }, list_rows(file)) };
       sink.emit(&format!("ms {} {}", n128, hist.join("|")), &ans, hist.len() > 1);
     };
     emit(sink, &hist, r.ok, &file);
